@@ -5760,7 +5760,9 @@ class FlowIRConcrete(object):
                 context = context[point]
 
             variable_name = route[-1]
-            context[variable_name] = value
+            # VV: Store a private copy: if the caller changes its own object later, the description must not
+            #     change behind the cache of resolved configurations
+            context[variable_name] = deep_copy(value)
 
     def set_component_variable(
             self,  # type: FlowIRConcrete
@@ -5773,7 +5775,7 @@ class FlowIRConcrete(object):
         #          modifying the value of said `variable` will create a new instance of it
         #          that's only visible by `comp_id` (see get_component_variables())
         variables = self._get_component_variables_ref(comp_id, False)
-        variables[variable] = value
+        variables[variable] = deep_copy(value)
 
     def delete_component_variable(
             self,  # type: FlowIRConcrete
@@ -6042,6 +6044,9 @@ class FlowIRConcrete(object):
         with self._cache._lock:
             component = self._component_dictionary[comp_id]
 
+            # VV: Store a private copy (like add_component does): the nested dictionaries of @new_flowir must not
+            #     become part of the description, the caller may change them later without the cache noticing
+            new_flowir = deep_copy(new_flowir)
             component.clear()
             component.update(new_flowir)
 
@@ -6240,7 +6245,7 @@ class FlowIRConcrete(object):
         if FlowIR.LabelStages not in self._flowir[FlowIR.FieldVariables][platform]:
             self._flowir[FlowIR.FieldVariables][platform][FlowIR.LabelStages] = {}
 
-        self._flowir[FlowIR.FieldVariables][platform][FlowIR.LabelGlobal][variable] = value
+        self._flowir[FlowIR.FieldVariables][platform][FlowIR.LabelGlobal][variable] = deep_copy(value)
 
         self._cache.clear()
 
@@ -6320,7 +6325,7 @@ class FlowIRConcrete(object):
         if stage_index not in stage_vars:
             stage_vars[stage_index] = {}
 
-        stage_vars[stage_index][variable] = value
+        stage_vars[stage_index][variable] = deep_copy(value)
 
         self._cache.clear()
 
@@ -6345,7 +6350,8 @@ class FlowIRConcrete(object):
             variable,  # type: str
             value,  # type: str
     ):
-        self._flowir[FlowIR.FieldVariables][FlowIR.LabelDefault][FlowIR.LabelStages][stage_index][variable] = value
+        self._flowir[FlowIR.FieldVariables][FlowIR.LabelDefault][FlowIR.LabelStages][stage_index][variable] = \
+            deep_copy(value)
 
         self._cache.clear()
 
